@@ -65,6 +65,9 @@ ASSUME Export => /\ \A i \in 1..Len(ReqSeq) : PrintT(<<"Q", i, ReqSeq[i].b, ReqS
                  /\ \A s \in DOMAIN M : \A sid \in DOMAIN M[s] :
                         PrintT(<<"M", s, sid, M[s][sid].sf, M[s][sid].subs>>)
 BFamDefault == {Rules}
+\* enough to take every action of the design layer once (coverage run)
+BFamCov     == {Rules, Rules \ {"none"}}
+BFamNoSfns  == {Rules \ {"sfns"}}
 \* "disabling one behaviour": everything on, and exactly one off
 BFamOneOff == {Rules} \cup {Rules \ {r} : r \in Rules}
 =============================================================================
